@@ -110,8 +110,13 @@ def random_script(rng, n, wrap_octets=False):
             steps.append(ev("report", t=now))
             steps.append(ev("unbind", s=st.s))
             steps.append(ev("report", t=now))
+            old = st
             streams[st.s] = Stream(rng, st.s, rng.choice(rates))
             steps.append(ev("bind", s=st.s, rate=streams[st.s].rate))
+            if rng.random() < 0.6:       # writes that were in flight when the stream was removed go through the writer of the
+                for d in (1, 2):         # OLD binding (the SSRC is bound again by now): counted nowhere
+                    steps.append(dict(ev("rtp", s=old.s, w=(old.pos + d) % 65536, ts=old.ts + 90 * d, ln=700, t=now), stale=True))
+                steps.append(ev("report", t=now))
         elif r < 0.98:
             # the SSRC is bound again while it is still bound (renegotiation: new clock rate): the new binding starts fresh
             steps.append(ev("report", t=now))
